@@ -134,7 +134,8 @@ Printable(v) ==
   CASE v.t = "undef" -> FALSE
     [] v.t = "list" -> \A i \in 1..Len(v.v) : Printable(v.v[i])
     [] v.t = "map" -> KeysOK(v.v) /\ \A k \in DOMAIN v.v : Printable(v.v[k])
-    [] v.t = "float" -> v.sh <= 20
+    \* below 1e-6 JavaScript switches to exponent notation: outside the model
+    [] v.t = "float" -> v.sh <= 20 /\ (v.num = 0 \/ Abs(v.num) >= 2147 \/ Abs(v.num) * 1000000 >= Pow2(v.sh))
     [] OTHER -> TRUE
 
 RECURSIVE ToText(_), JoinList(_, _), JoinMap(_, _, _)
